@@ -401,6 +401,23 @@ Proof. intros fuel a key v1 b v2 tail m i kd r Fa F1 Fb F2 C R NL. revert fuel m
     now apply SECOND.
   - inversion Fa; subst. rewrite <- app_assoc, (dec_pair_enc _ Hmax _ _ H1). destruct p as [kp vp].
     destruct (insert_pair kp vp m) as [m1|] eqn:P; cbn [pbind]; [|eauto]. now apply IH. Qed.
+(* the same without the classification premise: a key that does not classify (or names no row) is already an error at its first occurrence *)
+Lemma first_bad : forall (a : list rpair) fuel key v1 tail m,
+  Forall (fits maxvec) a -> fits maxvec (key, v1) -> (forall m', exists e, insert_pair key v1 m' = PErr e) ->
+  exists e, dec_entries fuel (enc_pairs a ++ enc_pair maxvec (key, v1) ++ tail) m = PErr e.
+Proof. induction a as [|p a IH]; intros fuel key v1 tail m Fa F1 Bad; (destruct fuel as [|f]; [cbn; eauto|]); cbn [enc_pairs app PsetMaps.dec_entries].
+  - rewrite (dec_pair_enc _ Hmax _ _ F1). destruct (Bad m) as [e ->]. cbn [pbind]. eauto.
+  - inversion Fa; subst. rewrite <- app_assoc, (dec_pair_enc _ Hmax _ _ H1). destruct p as [kp vp].
+    destruct (insert_pair kp vp m) as [m1|]; cbn [pbind]; [|eauto]. now apply IH. Qed.
+Theorem dup_rejected_any : forall fuel (a : list rpair) key v1 (b : list rpair) v2 tail m,
+  Forall (fits maxvec) a -> fits maxvec (key, v1) -> Forall (fits maxvec) b -> fits maxvec (key, v2) ->
+  (forall i kd r, classify key = POk (i, kd) -> nth_error T i = Some r -> r_kind r <> KOptLast) ->
+  exists e, dec_entries fuel (enc_pairs a ++ enc_pair maxvec (key, v1) ++ enc_pairs b ++ enc_pair maxvec (key, v2) ++ tail) m = PErr e.
+Proof. intros fuel a key v1 b v2 tail m Fa F1 Fb F2 NL. destruct (classify key) as [[i kd]|e0] eqn:C.
+  - destruct (nth_error T i) as [r|] eqn:R.
+    + eapply dup_rejected; eauto.
+    + apply first_bad; auto. intros m'. unfold PsetMaps.insert_pair. rewrite C. cbn [pbind]. rewrite R. eauto.
+  - apply first_bad; auto. intros m'. unfold PsetMaps.insert_pair. rewrite C. cbn [pbind]. eauto. Qed.
 End ONE.
 (* ---------------------------------------------------------------- the whole PSET *)
 Section PSET.
